@@ -192,13 +192,13 @@ Section Tight.
   Proof. intros H1 H2 H3. unfold grow. lia. Qed.
 
   Lemma cautious_tight e n :
-    0 < e -> e < U32 ->
+    0 < e ->
     exists c0, cautious e n = Ok c0 /\ 1 <= c0 /\ c0 <= N.max n 1 /\ c0 * e <= N.max 4096 e /\
                (n <= c0 \/ min_non_zero_cap e <= 2 * c0).
   Proof.
-    intros H0 H1. destruct (cautious_spec e n H0 H1) as (c0 & Ec & Hc1 & Hc2 & Hc3).
+    intros H0. destruct (cautious_spec e n H0) as (c0 & Ec & Hc1 & Hc2 & Hc3).
     exists c0. repeat split; try assumption.
-    unfold cautious in Ec. rewrite N.mod_small in Ec by exact H1.
+    unfold cautious in Ec.
     destruct (N.eqb_spec e 0); [lia|]. injection Ec as Ec.
     destruct (N.le_gt_cases n c0) as [Hle|Hgt]; [left; exact Hle|right].
     assert (Hq : c0 = N.max (4096 / e) 1) by lia.
@@ -283,14 +283,14 @@ Section Tight.
       max 4096 e + 4 * e * (elements decoded).  The element's failure constant [f0] is
       paid once. *)
   Lemma cpush_loop_tight s0 f0 a1 e (f : cparser val) n :
-    tbound true s0 f0 a1 f -> 0 < e -> e < U32 ->
+    tbound true s0 f0 a1 f -> 0 < e ->
     tbound false (if n =? 0 then alpha * e else 0)
                  (alpha * N.max 4096 e + beta + f0)
                  (s0 + beta + a1 + 4 * (alpha * e))
            (cpush_loop e f n).
   Proof.
-    intros Hf He0 He1 bs. unfold cpush_loop.
-    destruct (cautious_tight e n He0 He1) as (c0 & Ec & Hc1 & Hc2 & Hc3 & Hc4).
+    intros Hf He0 bs. unfold cpush_loop.
+    destruct (cautious_tight e n He0) as (c0 & Ec & Hc1 & Hc2 & Hc3 & Hc4).
     rewrite Ec. rewrite (mbind_ok (mlift (Ok c0)) _ c0) by reflexivity. cbn [mlift fst snd app].
     rewrite (mbind_ok (emit _) _ tt) by reflexivity. cbn [emit fst snd].
     pose proof (crepeat_vec_tight s0 f0 a1 f e c0 n bs Hf Hc1 Hc4) as Hc.
@@ -339,7 +339,7 @@ Section Tight.
 
   (** * [Vec<T>::deserialize_reader] *)
   Lemma cdec_vec_tight s0 f0 a1 e u8 (f : cparser val) :
-    (u8 = false -> tbound true s0 f0 a1 f /\ 0 < e /\ e < U32) ->
+    (u8 = false -> tbound true s0 f0 a1 f /\ 0 < e) ->
     tbound true 0
            (if u8 then alpha * CHUNK else alpha * N.max 4096 e + beta + f0)
            (if u8 then 5 * alpha else s0 + beta + a1 + 4 * (alpha * e))
@@ -355,8 +355,8 @@ Section Tight.
       + eapply tbound_weaken; [| | | |apply tbound_ret]; try lia; auto.
       + destruct u8.
         * apply tbound_map. eapply tbound_weaken; [| | | |apply (cbulk_tight n ltac:(lia))]; unfold FF, AA; try lia; auto.
-        * destruct (Hu eq_refl) as (Hf & He0 & He1).
-          pose proof (cpush_loop_tight s0 f0 a1 e f n Hf He0 He1) as Hp.
+        * destruct (Hu eq_refl) as (Hf & He0).
+          pose proof (cpush_loop_tight s0 f0 a1 e f n Hf He0) as Hp.
           assert (En : (n =? 0) = false) by (apply N.eqb_neq; exact Hn0). rewrite En in Hp.
           eapply tbound_weaken; [| | | |exact Hp]; unfold FF, AA; try lia; auto.
   Qed.
